@@ -981,6 +981,13 @@ func TestVF_C10(t *testing.T) {
 		"Distinct = distinct draw or session")
 	res.Assume("reference = internal/zzverifref (std + x/crypto primitives only), validated against RFC 5869/8448/3610 vectors in setup and below",
 		"the DTLS 1.3 AEAD nonce uses the 64-bit record sequence number without the epoch (RFC 9147 Section 4)")
+	if err := ref.SelfTest(); err != nil {
+		res.Inconc("reference implementation fails its published vectors: " + err.Error())
+		res.Finish(t)
+
+		return
+	}
+	res.Count("reference_vectors_ok", 1)
 	draws := vfPick(300, 20000)
 	vfC10PRF(res, draws)
 	var jobs []func()
